@@ -54,6 +54,7 @@ type opResult struct {
 	parts    []part
 	modified bool   // O2: physical snapshot of the inputs differed after the operation
 	pre      string // kept only when modified
+	incons   bool   // O4 inside one operation: equal octets decoded twice gave different results (pre = fresh buffer, post = reused buffer)
 	post     string
 	postSem  string // semantic dump of the input object after an XR-reaching Marshal
 	outPtr   rtcp.Packet
@@ -685,7 +686,8 @@ func mutateInto(dst, src rtcp.Packet) {
 		xd.SenderSSRC = xs.SenderSSRC
 		nr := make([]rtcp.ReportBlock, len(xs.Reports))
 		for i := range xs.Reports {
-			if i < len(xd.Reports) && reflect.TypeOf(xd.Reports[i]) == reflect.TypeOf(xs.Reports[i]) {
+			if i < len(xd.Reports) && xd.Reports[i] != nil && xs.Reports[i] != nil && reflect.TypeOf(xd.Reports[i]) == reflect.TypeOf(xs.Reports[i]) &&
+				!reflect.ValueOf(xd.Reports[i]).IsNil() && !reflect.ValueOf(xs.Reports[i]).IsNil() {
 				copyExported(reflect.ValueOf(xd.Reports[i]).Elem(), reflect.ValueOf(xs.Reports[i]).Elem(), true)
 				nr[i] = xd.Reports[i]
 			} else {
